@@ -9,6 +9,7 @@ import (
 	"github.com/openfga/language/pkg/go/transformer"
 
 	"verif/core"
+	"verif/gen"
 )
 
 // C15 — fga.mod: accepted file paths are safe, verbatim and correctly located.
@@ -579,6 +580,29 @@ func c15Run(ctx *core.Ctx) {
 		}
 		rec(nil)
 	}
+	// size sweep: manifests of n entries (line numbers of two and three digits), none / the second / the middle / the last
+	// of them offending in one of three ways
+	if ctx.Shard == 1%max(ctx.N, 1) {
+		for _, n := range gen.SweepSizes {
+			for _, bad := range []string{"", "../x.fga", "a.txt", "%zz.fga"} {
+				for _, pos := range []int{1, n / 2, n - 1} {
+					var es []string
+					for i := 0; i < n; i++ {
+						es = append(es, fmt.Sprintf("dir%03d/f%03d.fga", (i*7+3)%n, i))
+					}
+					if bad != "" {
+						es[pos] = bad
+					}
+					ctx.Eval(1)
+					c15Judge(ctx, "many-entries", simpleManifest(es), true)
+					ctx.Flag("c15:many-entries")
+					if bad == "" {
+						break
+					}
+				}
+			}
+		}
+	}
 	// YAML presentations x a path set with every kind of entry
 	if ctx.Shard == 0 {
 		sets := [][]string{
@@ -612,7 +636,7 @@ func init() {
 	core.Register(&core.Check{
 		ID: "C15",
 		Rule: "every path string of length <= 5 (quick) / <= 6 (thorough, plus length 7 with one of . % \\ in the middle) over the alphabet { . / \\ % 2 5 e E f F c C + a g }, bare and with .fga / %2Efga / %2efga appended, " +
-			"as single entry and (length <= 3) as second and third entry behind good ones, in a single-quoted block-sequence manifest; every sequence of 1-4 segments from a menu of 10 parent-segment look-alikes (.., ..., a.., ..a, v1..2, a, ., %2e%2e, %2E., empty) x 4 separator spellings; 16 entry sets x 15 YAML presentations (block/flow, plain/single/double/folded/literal scalars, key order, indentation, comments, CRLF, document start, anchors); " +
+			"as single entry and (length <= 3) as second and third entry behind good ones, in a single-quoted block-sequence manifest; every sequence of 1-4 segments from a menu of 10 parent-segment look-alikes (.., ..., a.., ..a, v1..2, a, ., %2e%2e, %2E., empty) x 4 separator spellings; manifests of 4..128 entries with none / the second / the middle / the last offending; 16 entry sets x 15 YAML presentations (block/flow, plain/single/double/folded/literal scalars, key order, indentation, comments, CRLF, document start, anchors); " +
 			"25 malformed manifests (missing/wrong-typed/duplicated keys, non-string entries). Oracle: own percent decoder and segment analysis; positions from the generator's offsets; in multi-entry manifests an entry has an error exactly if it is rejected alone. " +
 			"states = outcome classes, non-trivial = distinct path strings",
 		Assume: []string{
